@@ -22,6 +22,7 @@ type GenConfig struct {
 	Presence   bool // presence edits
 	Interval   int64
 	Threshold  int64
+	Late       bool // some clients attach late (by an A step)
 }
 
 var keys = []string{"k1", "k2", "k3"}
@@ -114,12 +115,24 @@ func Generate(r *rng.R, g GenConfig) *History {
 	n := r.Range(g.MinClients, g.MaxClients)
 	h := &History{N: n, Interval: g.Interval, Threshold: g.Threshold, Setup: setupFor(g.Flavor), Flavor: g.Flavor, Quiesce: 3}
 	steps := r.Range(g.MinSteps, g.MaxSteps)
+	lateAt := map[int]int{}
+	if g.Late && n > 1 {
+		for c := 1; c < n; c++ {
+			if r.Chance(1, 2) {
+				h.Late = append(h.Late, c)
+				lateAt[r.Intn(steps)] = c
+			}
+		}
+	}
 	// per-client laziness: some clients sync rarely
 	lazy := make([]int, n)
 	for i := range lazy {
 		lazy[i] = r.Pick(3, 1) // 1 = lazy
 	}
 	for i := 0; i < steps; i++ {
+		if lc, ok := lateAt[i]; ok {
+			h.Steps = append(h.Steps, Step{Op: "A", C: lc})
+		}
 		c := r.Intn(n)
 		wSync := 4
 		if lazy[c] == 1 {
